@@ -107,11 +107,12 @@ def html_to_nodes(
     for child in root:
         if child.name == "img":
             if "src" not in child.attrs:
-                return [
+                nodes_list.append(
                     renderer.reporter.error(
                         "<img> missing 'src' attribute", line=line_number
                     )
-                ]
+                )
+                continue
             content = "\n".join(
                 f":{k}: {_quote_option(v)}"
                 for k, v in sorted(child.attrs.items())
